@@ -1,14 +1,11 @@
 //go:build verif
 
-package memoryevict
+package cpuevict
 
-// Engine `evict` (C11): the real memoryEvictor.memoryEvict() round (threshold -> release target -> victim
-// selection and ordering -> util.KillAndEvictPods -> DefaultEvictionExecutor -> Evictor with its TTL cache ->
-// policy/v1 eviction call on a fake clientset) is run tick by tick on the simulated clock against hand-written
-// fakes of StatesInformer and MetricCache, a recording eviction API with fault injection and a kubelet stub that
-// lets evicted pods linger. The oracles look at the recorded Evict history of every round and are written from
-// the statement of C11 (eligible victims, published order, stop exactly when the target is covered, no double
-// eviction, no useless victim). See /verif/DESIGN.md section 4, C11.
+// Engine `evictcpu` (C11, CPU half): the real cpuEvictor.cpuEvict() round (BE satisfaction / node usage / allocatable
+// thresholds -> release target -> victim selection and ordering -> util.KillAndEvictPods -> DefaultEvictionExecutor ->
+// Evictor with its TTL cache -> policy/v1 eviction call on a fake clientset), driven exactly like engine `evict`
+// (same stubs, same oracles; see evict_verif_test.go). Quantities are milli-CPU.
 
 import (
 	"encoding/json"
@@ -60,34 +57,39 @@ func TestVerifSim(t *testing.T) {
 
 type evEngine struct{}
 
-func (evEngine) Name() string { return "evict" }
+func (evEngine) Name() string { return "evictcpu" }
 
 const (
-	evMi = int64(1) << 20
+	evMi = int64(1) // the unit of every quantity of this engine is one milli-CPU
 	// koordlet remembers an evicted pod for two minutes (Evictor.podsEvicted, an expiring cache with the default TTL)
 	evTTL = 2 * time.Minute
 
-	fBE    = "BEMemoryEvict"
-	fAlloc = "MemoryAllocatableEvict"
-	fUsed  = "MemoryEvict"
+	fBE    = "BECPUEvict"
+	fAlloc = "CPUAllocatableEvict"
+	fUsed  = "CPUEvict"
 
 	tUsed = "podUsed"
 	tReq  = "podResourceRequest"
 )
 
 var evFeatureOrder = []string{fBE, fAlloc, fUsed}
-var evAllPolicies = []string{fBE, fAlloc, fUsed, "BECPUEvict", "CPUEvict", "CPUAllocatableEvict"}
+var evAllPolicies = []string{fBE, fAlloc, fUsed, "BEMemoryEvict", "MemoryEvict", "MemoryAllocatableEvict"}
 
 // ---------------------------------------------------------------- plan types
 
 type evThr struct {
 	Enable       bool   `json:"enable"`
-	MemThr       *int64 `json:"mem_thr,omitempty"`
-	MemLower     *int64 `json:"mem_lower,omitempty"`
-	AllocThr     *int64 `json:"alloc_thr,omitempty"`
+	CPUThr       *int64 `json:"cpu_thr,omitempty"` // cpuEvictThresholdPercent (CPUEvict)
+	CPULower     *int64 `json:"cpu_lower,omitempty"`
+	AllocThr     *int64 `json:"alloc_thr,omitempty"` // cpuAllocatableEvictThresholdPercent
 	AllocLower   *int64 `json:"alloc_lower,omitempty"`
-	PrioThr      *int32 `json:"prio_thr,omitempty"`       // evictEnabledPriorityThreshold (MemoryEvict)
-	AllocPrioThr *int32 `json:"alloc_prio_thr,omitempty"` // allocatableEvictPriorityThreshold (MemoryAllocatableEvict)
+	SatLower     *int64 `json:"sat_lower,omitempty"` // cpuEvictBESatisfactionLowerPercent (BECPUEvict)
+	SatUpper     *int64 `json:"sat_upper,omitempty"`
+	BEUsageThr   *int64 `json:"be_usage_thr,omitempty"`
+	Window       *int64 `json:"window,omitempty"` // cpuEvictTimeWindowSeconds
+	Policy       string `json:"policy,omitempty"` // cpuEvictPolicy
+	PrioThr      *int32 `json:"prio_thr,omitempty"`
+	AllocPrioThr *int32 `json:"alloc_prio_thr,omitempty"`
 }
 
 type evPod struct {
@@ -98,9 +100,9 @@ type evPod struct {
 	Enabled  string  `json:"enabled,omitempty"` // label koordinator.sh/eviction-enabled ("" = absent)
 	EvPrio   *string `json:"evprio,omitempty"`  // annotation koordinator.sh/eviction-priority (raw)
 	Policy   *string `json:"policy,omitempty"`  // annotation koordinator.sh/eviction-policy (raw JSON)
-	Req      int64   `json:"req"`               // memory request, MiB, in the resource name of the pod's priority class
-	Native   bool    `json:"native,omitempty"`  // requests plain "memory" although its class is batch/mid
-	Used     int64   `json:"used"`              // memory usage, MiB
+	Req      int64   `json:"req"`               // cpu request, milli, in the resource name of the pod's priority class
+	Native   bool    `json:"native,omitempty"`  // requests plain "cpu" although its class is batch/mid
+	Used     int64   `json:"used"`              // cpu usage, milli (a multiple of 125: exact as a float number of cores)
 	Phase    string  `json:"phase,omitempty"`   // "" = Running
 	NoMetric bool    `json:"no_metric,omitempty"`
 }
@@ -110,8 +112,9 @@ type evCfg struct {
 	IntervalS int              `json:"interval_s"`
 	CoolS     int              `json:"cool_s"`
 	CollectS  int              `json:"collect_s"`
-	CapMi     int64            `json:"cap_mi"`
-	Alloc     map[string]int64 `json:"alloc"` // "memory" | "batch" | "mid" -> MiB (absent key = resource not on the node)
+	CapMi     int64            `json:"cap_milli"`
+	Alloc     map[string]int64 `json:"alloc"` // "cpu" | "batch" | "mid" -> milli (absent key = resource not on the node)
+	BELimit   int64            `json:"be_limit"` // the real CPU limit of the BE tier (set by the suppress strategy), milli
 	Thr       evThr            `json:"thr"`
 	SysUsed   int64            `json:"sys_used"`
 	Pods      []evPod          `json:"pods"`
@@ -119,7 +122,7 @@ type evCfg struct {
 }
 
 type evOp struct {
-	K    string  `json:"k"` // tick | usage | sys | addpod | delpod | restart | stall | thr | label | phase
+	K    string  `json:"k"` // tick | usage | sys | belimit | addpod | delpod | restart | stall | thr | label | phase
 	N    int     `json:"n,omitempty"`
 	Pod  string  `json:"pod,omitempty"`
 	V    int64   `json:"v,omitempty"`
@@ -139,13 +142,13 @@ func evPI(v int) *int       { return &v }
 func evGenThr(g *sim.Rng) evThr {
 	t := evThr{Enable: !g.Bool(0.04)}
 	if !g.Bool(0.04) {
-		t.MemThr = evP64(g.PickI64(50, 60, 70, 80, 90))
+		t.CPUThr = evP64(g.PickI64(50, 60, 70, 80, 90))
 		switch x := g.Intn(20); {
 		case x < 5: // default lower = threshold - 2
 		case x < 19:
-			t.MemLower = evP64(*t.MemThr - g.PickI64(1, 2, 3, 5, 5, 10, 20))
+			t.CPULower = evP64(*t.CPUThr - g.PickI64(1, 2, 3, 5, 5, 10, 20))
 		default:
-			t.MemLower = evP64(*t.MemThr + g.PickI64(0, 5)) // invalid: lower >= threshold
+			t.CPULower = evP64(*t.CPUThr + g.PickI64(0, 5)) // invalid: lower >= threshold
 		}
 	}
 	if !g.Bool(0.04) {
@@ -158,6 +161,20 @@ func evGenThr(g *sim.Rng) evThr {
 			t.AllocLower = evP64(*t.AllocThr)
 		}
 	}
+	if !g.Bool(0.04) {
+		t.SatLower = evP64(g.PickI64(20, 40, 50, 60, 60, 70)) // 70: invalid (> 60)
+		t.SatUpper = evP64(g.PickI64(60, 70, 80, 90, 90, 100)) // 100: invalid
+		if g.Bool(0.03) {
+			t.SatUpper = evP64(*t.SatLower - 10)
+		}
+	}
+	if g.Bool(0.6) {
+		t.BEUsageThr = evP64(g.PickI64(0, 50, 80, 90, 100))
+	}
+	if g.Bool(0.6) {
+		t.Window = evP64(g.PickI64(1, 10, 30, 60, 120))
+	}
+	t.Policy = g.Pick("", "evictByRealLimit", "evictByAllocatable")
 	if !g.Bool(0.04) {
 		t.PrioThr = evP32(int32(g.PickInt(3999, 5500, 5999, 7999, 9999)))
 	}
@@ -214,11 +231,11 @@ func evGenPod(g *sim.Rng, name string, capMi int64) evPod {
 		}
 		p.Policy = evPS(string(b))
 	case x < 32:
-		p.Policy = evPS(g.Pick("BEMemoryEvict", "{}", ""))
+		p.Policy = evPS(g.Pick("BECPUEvict", "{}", ""))
 	}
-	p.Req = capMi * g.PickI64(0, 1, 2, 3, 5, 5, 8, 10) / 100
+	p.Req = g.PickI64(0, 500, 1000, 1000, 2000, 2000, 4000, 8000) * capMi / 32000
 	p.Native = g.Bool(0.06)
-	p.Used = capMi * g.PickI64(0, 1, 2, 3, 4, 5, 6, 8, 10, 15) / 100
+	p.Used = g.PickI64(0, 125, 250, 500, 500, 1000, 1000, 2000, 4000) * capMi / 32000
 	switch x := g.Intn(100); {
 	case x < 7:
 		p.Phase, p.Used = "Pending", 0
